@@ -130,6 +130,8 @@ func (s *Server) flushAOF(sync bool) {
 		if err != nil {
 			panic(err)
 		}
+		s.verifFlushed()
+		verifPoint("aof.afterFlush")
 		// send a broadcast to all sleeping followers
 		s.fcond.Broadcast()
 		if sync {
@@ -165,6 +167,8 @@ func (s *Server) writeAOF(args []string, d *commandDetails) error {
 			s.aofbuf = redcon.AppendBulkString(s.aofbuf, arg)
 		}
 		s.aofsz += len(s.aofbuf) - n
+		s.verifLogged()
+		verifPoint("aof.afterAppend")
 	}
 
 	// process geofences
